@@ -800,6 +800,45 @@ def translate_ub_env(repo, out):
     out.append("")
 
 
+# ------------------------------------------------------------------ exec0() / test() of the shells
+def translate_exec0(repo, out):
+    def nodoc(f):
+        return [n for n in f.body if not (isinstance(n, ast.Expr) and isinstance(n.value, ast.Constant) and isinstance(n.value.value, str))]
+
+    def cmp_zero(e, op, what):
+        need(isinstance(e, ast.Compare) and len(e.ops) == 1 and isinstance(e.ops[0], op) and ast.unparse(e.left) == "retcode"
+             and isinstance(e.comparators[0], ast.Constant) and isinstance(e.comparators[0].value, int) and not isinstance(e.comparators[0].value, bool),
+             f"{what}: unexpected comparison {ast.unparse(e)!r}")
+        return e.comparators[0].value
+
+    out.append("(* exec0() and test() of linux.Bash, linux.Ash and board.UBootShell, over the model's exec *)")
+    for rel, cls, name, execfn, with_test in (("tbot/machine/linux/bash.py", "Bash", "bash", "lx_exec", True),
+                                              ("tbot/machine/linux/ash.py", "Ash", "ash", "lx_exec", True),
+                                              ("tbot/machine/board/uboot.py", "UBootShell", "ub", "ub_exec", False)):
+        tree = parse(repo, rel)
+        b = nodoc(find_func(tree, "exec0", cls))
+        need(len(b) == 3 and ast.unparse(b[0]) in ("retcode, out = self.exec(*args)", "(retcode, out) = self.exec(*args)") and isinstance(b[1], ast.If) and not b[1].orelse
+             and len(b[1].body) == 1 and isinstance(b[1].body[0], ast.Raise) and "CommandFailure" in ast.unparse(b[1].body[0])
+             and ast.unparse(b[2]) == "return out", f"{cls}.exec0 is not `retcode, out = self.exec(*args); if <cmp>: raise CommandFailure; return out`")
+        k = cmp_zero(b[1].test, ast.NotEq, f"{cls}.exec0")
+        out.append(f"Definition gen_{name}_exec0 (args : list (list N)) (sts : list stage) (c : chan) : x0res * chan * list stage :=")
+        out.append(f"  match {execfn} args sts c with")
+        out.append(f"  | (XOk st out, c', sts') => (if negb (st =? {k})%Z then X0Failure st else X0Ok out, c', sts')")
+        out.append("  | (r, c', sts') => (X0Other r, c', sts')")
+        out.append("  end.")
+        if with_test:
+            b = nodoc(find_func(tree, "test", cls))
+            need(len(b) == 2 and ast.unparse(b[0]) in ("retcode, _ = self.exec(*args)", "(retcode, _) = self.exec(*args)") and isinstance(b[1], ast.Return),
+                 f"{cls}.test is not `retcode, _ = self.exec(*args); return <cmp>`")
+            k = cmp_zero(b[1].value, ast.Eq, f"{cls}.test")
+            out.append(f"Definition gen_{name}_test (args : list (list N)) (sts : list stage) (c : chan) : tres * chan * list stage :=")
+            out.append(f"  match {execfn} args sts c with")
+            out.append(f"  | (XOk st _, c', sts') => (TBool (st =? {k})%Z, c', sts')")
+            out.append("  | (r, c', sts') => (TOther r, c', sts')")
+            out.append("  end.")
+    out.append("")
+
+
 def translate(repo):
     out = ["(* GENERATED by tools/translate.py from the current source of the repository -- do not edit *)",
            "From TV Require Import Base Regex Channel LogEvent Session Sh SshScp.", ""]
@@ -816,6 +855,7 @@ def translate(repo):
     translate_ssh(repo, out)
     translate_scp(repo, out)
     translate_ub_env(repo, out)
+    translate_exec0(repo, out)
     return "\n".join(out) + "\n"
 
 
